@@ -16,7 +16,7 @@ import (
 func iiShape(tag string) *Accessory {
 	a := New(Info{Name: "n"}, TypeOther)
 	ns := verif.Choice(tag+"-services", 3)
-	var prev *service.Service
+	svcs := make([]*service.Service, ns)
 	for i := 0; i < ns; i++ {
 		s := service.New("43")
 		nc := verif.Choice(tag+"-chars"+string(rune('0'+i)), 4)
@@ -25,10 +25,19 @@ func iiShape(tag string) *Accessory {
 		}
 		s.Hidden = i == 0
 		s.Primary = i == 1
-		if prev != nil {
-			s.AddLinkedService(prev)
+		svcs[i] = s
+	}
+	// links are made before the services are added, in either direction: to a service that is
+	// added earlier, or to one that is (also) added explicitly later
+	if ns == 2 {
+		switch verif.Choice(tag+"-link", 3) {
+		case 1:
+			svcs[1].AddLinkedService(svcs[0])
+		case 2:
+			svcs[0].AddLinkedService(svcs[1])
 		}
-		prev = s
+	}
+	for _, s := range svcs {
 		a.AddService(s)
 	}
 	return a
